@@ -190,6 +190,18 @@ CHECKS["C09"] = (
     "raise a ValueError exactly for the meaningless ones.",
     "Assumes TLC and the projection (exception class + isinstance ValueError). The character-level parser machine in "
     "TLA+ is future work (DESIGN.md §8); hangs are detected by a 2 s watchdog.", "DESIGN.md §6 C09")
+CHECKS["C07"] = (
+    "TLA+ Slice / Write / DigestSpans operators (Annotation.tla, ProFormaText.tla, Digest.tla) and labelled water from "
+    "Chem.tla + TLC trace validation of recorded digest calls on modified proteins in all five return types, with "
+    "re-parse, subsequence search and mass-conservation clauses (Trace_DigestMods)",
+    "For every returned peptide TLC checks that the annotation is the specification's slice of the protein (residue "
+    "mods on the same residues, terminal mods only with the terminus, global rules kept, contained intervals), that "
+    "string, annotation and span return types describe the same peptides in the same order, that the spans are those "
+    "the rule defines, that the string re-parses to the annotation and is found at its offset by the real subsequence "
+    "search, and that the real masses of the zero-missed-cleavage peptides sum to the real protein mass plus one "
+    "(label-adjusted) water per cut.",
+    "Assumes TLC and the projection; intervals never straddle a cut (as the property's quantifier says).",
+    "DESIGN.md §6 C07")
 NOT_YET = "check not built yet in this round (planned with the TLA+ technique, see DESIGN.md §6)"
 
 
